@@ -132,6 +132,39 @@ class C03(Prop):
         return False
 
     def extra_checks(self, tier, st, rng=None, cases=None, go=None):
-        return [], {"optimizer_changed_bytecode_in": getattr(self, "opt_changed", 0)}
+        # translation validation: every (unoptimized, optimized) pair the implementation produced goes through the
+        # validated optimizer of Model/OptSafe.v (theorems C03_optimized_simulates / C03_unoptimized_simulates)
+        lines, meta, seen = [], [], set()
+        for c in cases:
+            g = go.get(c.cid)
+            if not g:
+                continue
+            for k in list(g):
+                if k.endswith(".prog") and g.get(k[:-4] + "uprog") and g[k] != "UNOPT-REJECTED" and len(g[k]) < 300000:
+                    u = g[k[:-4] + "uprog"]
+                    if u == g[k] or (u, g[k]) in seen:
+                        continue
+                    seen.add((u, g[k]))
+                    cid = "T%d" % len(lines)
+                    lines.append(vlib.case_line(cid, "validate", uprog=u, prog=g[k]))
+                    meta.append((cid, c))
+        res, crashed = vlib.run_model(lines, tag="C03-validate") if lines else ({}, [])
+        viol, ok, refused, refused_sqrt = [], 0, 0, 0
+        for (cid, c) in meta:
+            v = (res.get(cid) or {}).get("valid")
+            if v == "ok":
+                ok += 1
+            elif v == "refused":
+                refused += 1
+                if "sqrt-fold" in c.tags:
+                    refused_sqrt += 1
+                viol.append((c, "the optimizer's rewrite of this program is not validated: some step is not shown to preserve behaviour "
+                                "(theorems C03_optimized_simulates / C03_unoptimized_simulates do not apply)"))
+            elif v and v.startswith("mismatch"):
+                viol.append((c, "the implementation's optimized program differs from what the validated optimizer produces for its unoptimized program"))
+        if crashed:
+            viol.append((None, "the validator process crashed: %s" % (crashed[:1],)))
+        return viol, {"optimizer_changed_bytecode_in": getattr(self, "opt_changed", 0), "programs_validated": ok,
+                      "validator_refused": refused, "validator_refused_sqrt_fold": refused_sqrt}
 
 PROP = C03()
